@@ -163,7 +163,7 @@ Qed.
 Theorem opd_definition_infinite :
   forall ss pz (wc : wfcfg ROps) (lc : launchcfg ROps) w Hy vx vy dx dy l0c l0 recs_c recs ref v i,
     lc_infinite lc = true -> lc_angle lc = true -> lc_pos1 lc = 0 ->
-    0 < lc_EPD lc - lc_minpos lc + lc_EPL lc -> 0 < cos (rad (lc_maxfield lc * Hy)) ->
+    0 < lc_offset lc + lc_EPL lc -> 0 < cos (rad (lc_maxfield lc * Hy)) ->
     w_ftype wc = "angle"%string -> w_maxfield wc = lc_maxfield lc -> w_EPD wc = lc_EPD lc ->
     launch lc w 0 Hy (scaled (O:=ROps) 0 vx) (scaled (O:=ROps) 0 vy) vx vy = Some l0c ->
     launch lc w 0 Hy (scaled (O:=ROps) dx vx) (scaled (O:=ROps) dy vy) vx vy = Some l0 ->
